@@ -494,7 +494,7 @@ class Check:
         return R.ok(faults=faults, probes=probes, nontrivial=nontrivial,
                     distinct_key=prng.short([kinds, sorted({r['kind'] for r in spec['rules']}), sc.get('destmode'), spec['umask']]),
                     interleavings=[prng.short(kinds)], summary={'ops': kinds, 'rules': [r['kind'] for r in spec['rules']]},
-                    steps=len(sc['steps']), trace_digest=prng.digest([kinds, trace]))
+                    steps=len(sc['steps']), trace_digest=prng.digest(json.loads(json.dumps([kinds, trace], default=str).replace(root, '<ROOT>'))))
 
     @staticmethod
     def explicit_dirs(spec: T.Dict[str, T.Any], destdir: str) -> T.Set[str]:
